@@ -61,7 +61,7 @@ template <class G> struct C12 {
   // the SAME inputs over Dual (infinitesimal parts zero) and over double: the primal must be the double result
   template <class A, class Bm> void cmpPrimal(const std::string& op, const A& dualvec, const Bm& dbl, ref::Real L, const std::string& key) {
     ref::Real d = 0;
-    for (int i = 0; i < dbl.size(); ++i) d = std::max(d, (ref::Real)std::fabs(dualvec(i).a - dbl(i)));
+    for (int i = 0; i < dbl.size(); ++i) d = vf::accmax(d, (ref::Real)std::fabs(dualvec(i).a - dbl(i)));
     // bar B2, not B1: the double instantiation may be vectorised by Eigen while the Dual one is not, so an input sitting on a
     // small-angle threshold can legitimately take the other branch; the two branches agree to the accuracy of exp/log (B2)
     close(d / std::max((ref::Real)1, L), B::B2, "dual_primal_equals_double_result", op + "/" + key);
@@ -76,7 +76,7 @@ template <class G> struct C12 {
     J Ja, Jb;
     ++R.states;
     // cast<Dual>() is a valid element equal to the original (it may re-normalise: last-bit differences are legitimate)
-    { GD c = X.template cast<Du>(); ref::Real d = 0; for (int i = 0; i < G::RepSize; ++i) d = std::max(d, (ref::Real)std::fabs(c.coeffs()(i).a - X.coeffs()(i)));
+    { GD c = X.template cast<Du>(); ref::Real d = 0; for (int i = 0; i < G::RepSize; ++i) d = vf::accmax(d, (ref::Real)std::fabs(c.coeffs()(i).a - X.coeffs()(i)));
       close(d / std::max((ref::Real)1, L), B::B1, "cast_to_dual_equals_original", "cast/" + key); }
     // inverse
     { G r = X.inverse(Ja); GD rd = Xd.inverse(); cmpPrimal("inverse", Xd0.inverse().coeffs(), r.coeffs(), L, key);
@@ -157,7 +157,7 @@ template <class G> struct C12 {
       close((ref::Real)vf::maxabs((r.coeffs() - e.coeffs())) / std::max((ref::Real)1, (ref::Real)vf::maxabs(e.coeffs())), 1e-13L, "functor_computes_documented_residual", "constraint<double>/" + key);
       GD Xd = liftG(X) + seed(), Yd = liftG(Y); TD rd; cf(Xd.data(), Yd.data(), rd.data());
       TD ed = t.template cast<Du>() - (Yd - Xd);
-      double dv = 0; for (int i = 0; i < D; ++i) dv = std::max(dv, std::max(std::fabs(rd.coeffs()(i).a - ed.coeffs()(i).a), (double)vf::maxabs((rd.coeffs()(i).v - ed.coeffs()(i).v))));
+      double dv = 0; for (int i = 0; i < D; ++i) dv = vf::accmax(vf::accmax(dv, std::fabs(rd.coeffs()(i).a - ed.coeffs()(i).a)), (double)vf::maxabs((rd.coeffs()(i).v - ed.coeffs()(i).v)));
       close(dv / std::max((ref::Real)1, (ref::Real)vf::maxabs(e.coeffs())), 1e-12L, "functor_computes_documented_residual", "constraint<Dual>/" + key);
     }
   }
